@@ -369,7 +369,7 @@ def filter_case(case):
         res['error'] = repr(e)[:400]
         return res
     finally:
-        shutil.rmtree(root, ignore_errors=True)
+        _rm_root(root)
 
 
 def run_pool(fn, cases, workers=12):
@@ -493,9 +493,29 @@ def dryrun_case(case):
         if k % 7 == 2: extra += ['--sensitive', '--no-fetch'] if variant != 0 else []
         if k % 4 == 3: extra.append('--write-report')
         if k % 6 == 4: extra += ['--cleanup', 'aggressive']
+        if variant == 0 and k % 4 == 2 and refs(repo):
+            # an earlier real (no-option) run in the same repository leaves its marks and maps in .git/filter-repo
+            rc0, _, err0, _ = run_tool(repo, ['--force'])
+            if rc0 != 0:
+                res['error'] = 'preparatory run failed: ' + err0.decode('utf-8', 'replace')[-200:]
+                return res
+            count('earlier-real-run-left-its-files')
+        target = None
+        if variant == 0 and k % 6 in (3, 5):
+            # a separate, empty target repository (the source is only read); blob stripping without content rules, so that the
+            # exporter's --no-data decision matters
+            target = os.path.join(root, 'target')
+            subprocess.run(['git', 'init', '-q', target], check=True, env=GIT_ENV, stdout=subprocess.DEVNULL)
+            extra += ['--source', repo, '--target', target]
+            if '--replace-text' not in cli and '--max-blob-size' not in cli and '--strip-blobs-with-ids' not in cli:
+                cli = cli + ['--max-blob-size', '40']
+            count('separate-target')
         before = full_snapshot(repo)
+        before_t = full_snapshot(target) if target else None
         rc, out, err, dt = run_tool(repo, ['--dry-run'] + extra + cli)
         after = full_snapshot(repo)
+        if target and full_snapshot(target) != before_t:
+            res['failures'].append(('C11', f'--dry-run changed the separate target repository (options {extra + cli})'))
         res['tool_rc'] = rc
         count('dry-run-ok' if rc == 0 else 'dry-run-refused-or-failed')
         for key in before:
@@ -510,21 +530,28 @@ def dryrun_case(case):
                 res['failures'].append(('C11', '--dry-run --backup wrote a bundle'))
         # preview = what a real run writes and imports
         if rc == 0:
-            dry_filtered = open(os.path.join(repo, '.git', 'filter-repo', 'fast-export.filtered'), 'rb').read()
+            dry_filtered = open(os.path.join(target or repo, '.git', 'filter-repo', 'fast-export.filtered'), 'rb').read()
             copy = os.path.join(root, 'copy')
             shutil.copytree(repo, copy, symlinks=True)
-            shutil.rmtree(os.path.join(copy, '.git', 'filter-repo'), ignore_errors=True)
+            if 'earlier-real-run-left-its-files' not in res['dist']:
+                shutil.rmtree(os.path.join(copy, '.git', 'filter-repo'), ignore_errors=True)
+            if target:
+                # the real run gets its own fresh target, and the same source by another copy
+                target2 = os.path.join(root, 'target2')
+                subprocess.run(['git', 'init', '-q', target2], check=True, env=GIT_ENV, stdout=subprocess.DEVNULL)
+                extra = [copy if a == repo else target2 if a == target else a for a in extra]
             tee_path = os.path.join(root, 'imported.stream')
             env2 = dict(GIT_ENV, PATH=make_shim(root) + os.pathsep + GIT_ENV.get('PATH', os.environ.get('PATH', '')), FRRS_SHIM_MODE='plain', FRRS_SHIM_TEE=tee_path,
                         FRRS_SHIM_IN='65536', FRRS_SHIM_OUT='65536')
             rc2, _, err2, _ = run_tool(copy, extra + cli + (['--force'] if '--force' not in extra else []), env=env2)
+            outrepo = target2 if target else copy
             if os.path.exists(tee_path) and rc2 == 0:
                 imported = _drop_get_mark(open(tee_path, 'rb').read())
-                real_file = os.path.join(copy, '.git', 'filter-repo', 'fast-export.filtered')
+                real_file = os.path.join(outrepo, '.git', 'filter-repo', 'fast-export.filtered')
                 if os.path.exists(real_file) and imported != open(real_file, 'rb').read():
                     res['failures'].append(('C11', f'[imported] the bytes fed to git fast-import differ from fast-export.filtered of the same run (options {extra + cli})'))
                 count('imported-bytes-compared')
-            fpath = os.path.join(copy, '.git', 'filter-repo', 'fast-export.filtered')
+            fpath = os.path.join(outrepo, '.git', 'filter-repo', 'fast-export.filtered')
             real_filtered = open(fpath, 'rb').read() if os.path.exists(fpath) else None
             if real_filtered is None:
                 count('real-run-wrote-no-stream')
@@ -562,7 +589,7 @@ def dryrun_case(case):
         res['error'] = repr(e)[:400]
         return res
     finally:
-        shutil.rmtree(root, ignore_errors=True)
+        _rm_root(root)
 
 
 # ------------------------------------------------------------------------------------------------
@@ -621,6 +648,14 @@ def backup_case(case):
                             FRRS_SHIM_IN='65536', FRRS_SHIM_OUT='65536')
             expect = ('unwritable', None)
             count('bundle-command-killed-by-signal')
+        if '--sensitive' not in bargs:
+            # the same repository named in two spellings: an explicit absolute --source next to the default target `.`,
+            # or a --target that reaches the repository through a symbolic link
+            if k % 7 == 3:
+                bargs += ['--source', repo]; count('source-spelled-as-absolute-path')
+            elif k % 7 == 5:
+                link = os.path.join(root, 'link-to-repo'); os.symlink(repo, link)
+                bargs += ['--target', link]; count('target-through-a-symlink')
         before_refs = refs(repo)
         before_head = git(repo, 'rev-parse', 'HEAD', check=False).decode().strip()
         before_snapshot = full_snapshot(repo) if expect[0] == 'unwritable' else None
@@ -683,7 +718,7 @@ def backup_case(case):
         res['error'] = repr(e)[:400]
         return res
     finally:
-        shutil.rmtree(root, ignore_errors=True)
+        _rm_root(root)
 
 
 # ------------------------------------------------------------------------------------------------
@@ -753,7 +788,12 @@ def sanity_case(case):
             # configuration that changes what porcelain commands report, not what the repository holds
             sh(repo, 'git config status.showUntrackedFiles no; git config status.relativePaths false; git config diff.ignoreSubmodules all')
         for v in applied:
-            if v == 'stash' and not bare: sh(repo, 'echo s >> b; git stash -q')
+            if v == 'stash' and not bare:
+                sh(repo, 'echo s >> b; git stash -q')
+                if case.get('stash_expired'):
+                    # the remedy the tool itself suggests for stale reflogs: refs/stash keeps the stashed work, its reflog is gone
+                    sh(repo, 'git reflog expire --expire=now --all' + ('; git gc -q --prune=now' if case['stash_expired'] == 2 else ''))
+                    count('stash-with-expired-reflog')
         for v in applied:
             if bare and v in ('unstaged', 'staged', 'untracked', 'stash'):
                 continue
@@ -775,7 +815,10 @@ def sanity_case(case):
         fstr = ';'.join(f'{k}={v}' for k, v in facts.items() if k != 'note')
         predicted = model().ask(f'preflight 0 {fstr}')
         before = full_snapshot(repo) if not bare else dict(refs=refs(repo), objects=git(repo, 'cat-file', '--batch-all-objects', '--batch-check'))
-        rc, out, err, dt = run_tool(repo, ['--path', 'a'])
+        tool_args = (['--sensitive'] if case.get('sensitive') else []) + ['--path', 'a']
+        if case.get('sensitive'):
+            count('sensitive-mode')
+        rc, out, err, dt = run_tool(repo, tool_args)
         after = full_snapshot(repo) if not bare else dict(refs=refs(repo), objects=git(repo, 'cat-file', '--batch-all-objects', '--batch-check'))
         text = err.decode('utf-8', 'replace')
         observed = 'accept' if rc == 0 else next((name for key, name in ERR_KEYS if key in text), 'other:' + text.strip().splitlines()[0][:80] if text.strip() else 'other')
@@ -799,7 +842,7 @@ def sanity_case(case):
                     res['failures'].append(('C12', f'the refused run changed files under .git: {gd_changed[:4]}'))
         # a refused run must not make the next, identical attempt succeed (state left behind by the refusal)
         if rc != 0 and case['id'] % 3 == 0:
-            rc_again, _, err_again, _ = run_tool(repo, ['--path', 'a'])
+            rc_again, _, err_again, _ = run_tool(repo, tool_args)
             if rc_again == 0:
                 res['failures'].append(('C12', f'violations {applied} (bare={bare}): refused at the first attempt, accepted when the identical command was repeated'))
             count('second-attempt-checked')
@@ -814,7 +857,7 @@ def sanity_case(case):
         res['error'] = repr(e)[:400]
         return res
     finally:
-        shutil.rmtree(root, ignore_errors=True)
+        _rm_root(root)
 
 
 # ------------------------------------------------------------------------------------------------
@@ -1032,7 +1075,7 @@ def analyze_case(case):
         res['error'] = f'{type(e).__name__}: {e}'
         return res
     finally:
-        shutil.rmtree(root, ignore_errors=True)
+        _rm_root(root)
 
 
 def _is_utf8(b):
@@ -1307,7 +1350,7 @@ def detect_case(case):
         res['error'] = f'{type(e).__name__}: {e} {traceback.format_exc()[-300:]}'
         return res
     finally:
-        shutil.rmtree(root, ignore_errors=True)
+        _rm_root(root)
 
 
 # ------------------------------------------------------------------------------------------------
@@ -1399,6 +1442,11 @@ def make_shim(root):
     return d
 
 
+def _rm_root(root):
+    shutil.rmtree(root, ignore_errors=True)
+    shutil.rmtree(os.path.join('/dev/shm', 'frrs-tmp-' + os.path.basename(root)), ignore_errors=True)
+
+
 def perturbed_env(root, k, mode='chunk'):
     env = dict(GIT_ENV)
     env['TZ'] = ['Asia/Kathmandu', 'Pacific/Kiritimati', 'America/St_Johns', 'UTC+13'][k % 4]
@@ -1406,6 +1454,9 @@ def perturbed_env(root, k, mode='chunk'):
     env['LC_ALL'] = ['C.UTF-8', 'POSIX', 'C', 'C.UTF-8'][(k // 4) % 4]
     env['LANGUAGE'] = 'tr:de'
     tmp = os.path.join(root, 'other tmp dir')
+    if k % 2 == 1 and os.path.isdir('/dev/shm') and os.access('/dev/shm', os.W_OK) and os.stat('/dev/shm').st_dev != os.stat(root).st_dev:
+        # a temporary directory on another filesystem than the repository (a rename from it into .git cannot work)
+        tmp = os.path.join('/dev/shm', 'frrs-tmp-' + os.path.basename(root))      # removed with the case's root (_rm_root)
     os.makedirs(tmp, exist_ok=True)
     env['TMPDIR'] = tmp
     env['PATH'] = make_shim(root) + os.pathsep + env.get('PATH', '')
@@ -1510,7 +1561,7 @@ def twice_case(case):
         res['error'] = f'{type(e).__name__}: {e} {traceback.format_exc()[-300:]}'
         return res
     finally:
-        shutil.rmtree(root, ignore_errors=True)
+        _rm_root(root)
 
 
 # ------------------------------------------------------------------------------------------------
@@ -1656,7 +1707,7 @@ def sweep_case(case):
         res['error'] = f'{type(e).__name__}: {e} {traceback.format_exc()[-300:]}'
         return res
     finally:
-        shutil.rmtree(root, ignore_errors=True)
+        _rm_root(root)
 
 
 # ------------------------------------------------------------------------------------------------
@@ -1712,9 +1763,10 @@ def fault_case(case):
         env['FRRS_SHIM_RC'] = str(rnd.choice([1, 1, 0, 141]))
         before = dict(refs=refs(repo), head=head_of(repo))
         try:
-            p = subprocess.run([FR, '--force'] + opts, cwd=repo, stdout=subprocess.PIPE, stderr=subprocess.PIPE, env=env, timeout=600)
+            p = subprocess.run([FR, '--force'] + opts, cwd=repo, stdout=subprocess.PIPE, stderr=subprocess.PIPE, env=env, timeout=180)
         except subprocess.TimeoutExpired:
-            res['failures'].append(('C17', f'fault {mode} at byte {cut} of {total}: the tool did not finish within 600 s'))
+            res['failures'].append(('C17', f'fault {mode} at byte {cut} of {total} (options {opts}, exit status of the faulted child {env["FRRS_SHIM_RC"]}): the tool did not finish within 180 s'))
+            res['failures'].append(('C10', f'fault {mode} at byte {cut} of {total} (options {opts}): the tool neither exited nor reported the failure within 180 s'))
             return res
         count('fault-' + mode)
         count('cut-in-first-pipe-buffer' if cut < 65536 else 'cut-beyond-first-pipe-buffer')
@@ -1748,7 +1800,7 @@ def fault_case(case):
         res['error'] = f'{type(e).__name__}: {e} {traceback.format_exc()[-300:]}'
         return res
     finally:
-        shutil.rmtree(root, ignore_errors=True)
+        _rm_root(root)
 
 
 # ------------------------------------------------------------------------------------------------
@@ -1798,6 +1850,12 @@ def head_case(case):
             subprocess.run(['git', '-C', repo, 'tag', name], env=GIT_ENV, stdout=subprocess.DEVNULL, stderr=subprocess.DEVNULL)
             subprocess.run(['git', '-C', repo, 'branch', '-f', '-- 0-sorts-first' if False else '0-sorts-first'], env=GIT_ENV, stdout=subprocess.DEVNULL, stderr=subprocess.DEVNULL)
             count('tag-named-like-the-branch')
+        if k % 3 == 2:
+            # a branch whose name is not valid UTF-8 (Latin-1 é) and sorts before every other branch
+            tip = git(repo, 'rev-parse', 'HEAD', check=False).decode().strip()
+            if tip:
+                subprocess.run([b'git', b'-C', repo.encode(), b'update-ref', b'refs/heads/0-caf\xe9', tip.encode()], env=GIT_ENV, stdout=subprocess.DEVNULL, stderr=subprocess.DEVNULL)
+                count('branch-name-not-utf8')
         count('scenario-' + scen)
         br = None
         if scen in ('tip-prune', 'tip-prune-and-rename'):
@@ -1861,7 +1919,7 @@ def head_case(case):
         res['error'] = f'{type(e).__name__}: {e} {traceback.format_exc()[-300:]}'
         return res
     finally:
-        shutil.rmtree(root, ignore_errors=True)
+        _rm_root(root)
 
 
 # ------------------------------------------------------------------------------------------------
@@ -1985,4 +2043,4 @@ def contract_case(case):
         res['error'] = f'{type(e).__name__}: {e} {traceback.format_exc()[-400:]}'
         return res
     finally:
-        shutil.rmtree(root, ignore_errors=True)
+        _rm_root(root)
